@@ -160,6 +160,31 @@ theorem MA.markPivoted {st : St} (h : MA e nextl0 st) {row : Int} (hp : rd e.per
   · subst hr; exact absurd hun hp
   · rw [mk2_mark_ne hr] at hm; exact h r r0 r1 hm hun
 
+theorem mk2_mark_iff {st : St} {row r : Int} (h0 : 0 ≤ 2 * e.m + row) (h1 : 2 * e.m + row < st.marker.size) :
+    mk2 e { st with marker := wr st.marker (2 * e.m + row) e.jcol } r = e.jcol ↔ (mk2 e st r = e.jcol ∨ r = row) := by
+  by_cases hr : r = row
+  · subst hr
+    have : mk2 e { st with marker := wr st.marker (2 * e.m + r) e.jcol } r = e.jcol := by
+      unfold mk2; exact rd_wr_eq h0 h1
+    simp [this]
+  · rw [mk2_mark_ne hr]; simp [hr]
+
+theorem ex_split {P : Nat → Prop} (a b : List Nat) (c : Nat) :
+    (∃ t ∈ a ++ c :: b, P t) ↔ ((∃ t ∈ a, P t) ∨ P c ∨ ∃ t ∈ b, P t) := by
+  constructor
+  · rintro ⟨t, ht, hp⟩
+    rcases mem_append.mp ht with h | h
+    · exact Or.inl ⟨t, h, hp⟩
+    · rcases mem_cons.mp h with rfl | h
+      · exact Or.inr (Or.inl hp)
+      · exact Or.inr (Or.inr ⟨t, h, hp⟩)
+  · rintro (⟨t, h, hp⟩ | hp | ⟨t, h, hp⟩)
+    · exact ⟨t, mem_append_left _ h, hp⟩
+    · exact ⟨c, mem_append_right _ mem_cons_self, hp⟩
+    · exact ⟨t, mem_append_right _ (mem_cons_of_mem _ h), hp⟩
+
+theorem or_shuffle {A B C D E F : Prop} : (((A ∨ B) ∨ C ∨ D) ∨ E ∨ F) ↔ (A ∨ (B ∨ E) ∨ (F ∨ C ∨ D)) := by tauto
+
 theorem slice_length (a : Array Int) (lo hi : Int) : (slice a lo hi).length = (hi - lo).toNat := by
   simp [slice]
 
@@ -346,6 +371,8 @@ structure ScanRes (s : Nat) (st : St) (post : List Nat) (d : Nat) (st' : St) (po
   frame : ∀ t : Int, t ≤ s → rd st'.parent t = rd st.parent t ∧ (t < s → rd st'.xplore t = rd st.xplore t)
   bound : n + post.length * stepK nextl0 ≤ d + post'.length * stepK nextl0
   ma : MA e nextl0 st'
+  marks : ∀ nw, post' = nw ++ post → ∀ r, mk2 e st' r = e.jcol ↔
+    (mk2 e st r = e.jcol ∨ r ∈ slice L (rd e.xprune s - d) (rd e.xprune s) ∨ ∃ t ∈ nw, r ∈ adjRows e L ((t : Nat) : Int))
 
 /-- the statement proved by induction: scanning `L[x .. xprune[s])` with the machine = folding the
 recursive visit (fuel `f`) over the successors found there -/
@@ -384,6 +411,8 @@ structure Mild (st st1 : St) : Prop where
   disc : ∀ t, disc st1 t ↔ disc st t
 
 theorem ScanRes.of_mild {s : Nat} {st st1 st' : St} {post post' : List Nat} {d n : Nat} (hm : Mild st st1)
+    (x : Int) (hx0 : 0 ≤ x) (hxd : x + ((d + 1 : Nat) : Int) = rd e.xprune s)
+    (hmark : ∀ r, mk2 e st1 r = e.jcol ↔ (mk2 e st r = e.jcol ∨ r = rd L x))
     (h : ScanRes e L nextl0 s st1 post d st' post' n) : ScanRes e L nextl0 s st post (d + 1) st' post' (n + 1) where
   ok := h.ok
   pok := h.pok
@@ -396,6 +425,12 @@ theorem ScanRes.of_mild {s : Nat} {st st1 st' : St} {post post' : List Nat} {d n
   frame := fun t ht => by rw [← hm.parent, ← hm.xplore]; exact h.frame t ht
   bound := by have := h.bound; omega
   ma := h.ma
+  marks := fun nw hnw r => by
+    rw [h.marks nw hnw r, hmark r]
+    have e1 : rd e.xprune s - ((d + 1 : Nat) : Int) = x := by omega
+    have e2 : rd e.xprune s - (d : Int) = x + 1 := by push_cast at hxd; omega
+    rw [e1, e2, slice_cons L hx0 (by push_cast at hxd; omega : x < rd e.xprune s)]
+    simp only [mem_cons]; tauto
 
 theorem PostOK.of_mild {st st1 : St} {post : List Nat} (hm : Mild st st1) (h : PostOK e post st) : PostOK e post st1 where
   nodup := h.nodup
@@ -460,7 +495,10 @@ theorem scan_rows (hE : EnvOK e L nextl0) {adj : Nat → List Nat}
     refine ⟨0, st, post, fun F => by simp, ?_, ?_⟩
     · simp [succFrom, slice_nil]
     · exact ⟨hst, hpo, ⟨[], by simp, by simp, by simp, by simp [slice_nil]⟩, fun _ _ => rfl, fun _ h => h,
-        fun _ _ h => Or.inl h, fun _ _ => ⟨rfl, fun _ => rfl⟩, by omega, hma⟩
+        fun _ _ h => Or.inl h, fun _ _ => ⟨rfl, fun _ => rfl⟩, by omega, hma,
+        fun nw hnw r => by
+          have : nw = [] := by simpa using hnw
+          subst this; simp [slice_nil]⟩
   | succ d ihd =>
     intro s x st post hs hf hrs hx hxd hst hpo hds hdf hma
     obtain ⟨hl0, hl1, hl2, hrows⟩ := hE.lists s (by omega) hs hrs
@@ -471,16 +509,17 @@ theorem scan_rows (hE : EnvOK e L nextl0) {adj : Nat → List Nat}
     have hE1 : (EMPTY : Int) = -1 := rfl
     -- the three cases that do not descend
     have cont : ∀ st1, Mild st st1 → StOK e L nextl0 st1 → MA e nextl0 st1 →
+        (∀ r, mk2 e st1 r = e.jcol ↔ (mk2 e st r = e.jcol ∨ r = rd L x)) →
         rowStep e ⟨s, x, rd e.xprune s, st⟩ = ⟨s, x + 1, rd e.xprune s, st1⟩ →
         ((s : Int) < rd e.perm_r (rd L x) → repN e (rd e.perm_r (rd L x)).toNat ∈ post) →
         ∃ n st' post',
           (∀ F, run e (n + F) ⟨s, x, rd e.xprune s, st⟩ = run e F ⟨s, rd e.xprune s, rd e.xprune s, st'⟩) ∧
           post' = (succFrom e L s x (rd e.xprune s)).foldl (fun acc r => dfsVisit adj f r acc) post ∧
           ScanRes e L nextl0 s st post (d + 1) st' post' n := by
-      intro st1 hm hst1 hma1 hstep hnoop
+      intro st1 hm hst1 hma1 hmark hstep hnoop
       obtain ⟨n, st', post', hrun, hpost, hres⟩ := ihd s (x + 1) st1 post hs hf hrs (by omega) (by omega) hst1
         (hpo.of_mild hm) ((hm.disc _).mpr hds) (fun t ht hd => hdf t ht ((hm.disc _).mp hd)) hma1
-      refine ⟨n + 1, st', post', ?_, ?_, hres.of_mild hm⟩
+      refine ⟨n + 1, st', post', ?_, ?_, hres.of_mild hm x hx0 (by push_cast; omega) hmark⟩
       · intro F
         rw [show n + 1 + F = (n + F) + 1 by omega, run_row (by exact hxlt), hstep]
         exact hrun F
@@ -502,9 +541,12 @@ theorem scan_rows (hE : EnvOK e L nextl0) {adj : Nat → List Nat}
       rcases hdf _ (by rw [hc]; exact hrep.2.1) (by rw [hc]; exact hd) with h | h
       · exact h
       · omega
+    have hmr0 : 0 ≤ 2 * e.m + rd L x := by have := hE.m0; omega
+    have hmr1 : 2 * e.m + rd L x < st.marker.size := by have := hst.szMark; omega
     by_cases hmk : mk2 e st (rd L x) = e.jcol
     · -- (A) the row carries the mark of this column
-      refine cont st ⟨rfl, rfl, rfl, rfl, fun _ => Iff.rfl⟩ hst hma ?_ ?_
+      refine cont st ⟨rfl, rfl, rfl, rfl, fun _ => Iff.rfl⟩ hst hma
+        (fun r => ⟨Or.inl, fun h => h.elim id (fun h => by rw [h]; exact hmk)⟩) ?_ ?_
       · have := rowStep_marked (e := e) (c := ⟨s, x, rd e.xprune s, st⟩) (by simpa [hrow] using hmk)
         simpa using this
       · intro hlt
@@ -516,7 +558,11 @@ theorem scan_rows (hE : EnvOK e L nextl0) {adj : Nat → List Nat}
           (by unfold mk2; exact rd_wr_eq (by have := hE.m0; omega) (by have := hst.szMark; omega))
           (fun hin => hmk (hst.app.rows _ hin).2.2.2)
         refine cont _ ⟨?_, ?_, ?_, ?_, ?_⟩ hokB (hma.markAppend hst _ _ hokB
-          (hst.room hr0 hr1 hkp (fun hin => hmk (hst.app.rows _ hin).2.2.2))) ?_ ?_
+          (hst.room hr0 hr1 hkp (fun hin => hmk (hst.app.rows _ hin).2.2.2)))
+          (fun r => by
+            have := mk2_mark_iff (e := e) (st := st) (row := rd L x) (r := r) hmr0 hmr1
+            unfold mk2 at this ⊢
+            rw [(appendRow_lsub _ _ _).2.2]; exact this) ?_ ?_
         · unfold appendRow; split <;> rfl
         · unfold appendRow; split <;> rfl
         · unfold appendRow; split <;> rfl
@@ -532,7 +578,12 @@ theorem scan_rows (hE : EnvOK e L nextl0) {adj : Nat → List Nat}
             (rd st.repfnz (repOf e (rd e.perm_r (rd L x)))) (rd e.perm_r (rd L x))) ⟨?_, ?_, ?_, ?_, ?_⟩
             ((hst.mark (rd L x) (fun _ => hdc)).lower hkp hd')
             ((hma.markPivoted hkp).congr (by unfold lowerFnz; split <;> rfl) (by unfold lowerFnz; split <;> rfl)
-              (fun r hr => by unfold lowerFnz at hr; split at hr <;> exact hr)) ?_ (fun hlt => hfin hlt hdc)
+              (fun r hr => by unfold lowerFnz at hr; split at hr <;> exact hr))
+            (fun r => by
+              have := mk2_mark_iff (e := e) (st := st) (row := rd L x) (r := r) hmr0 hmr1
+              unfold mk2 at this ⊢
+              unfold lowerFnz
+              split <;> exact this) ?_ (fun hlt => hfin hlt hdc)
           · unfold lowerFnz; split <;> rfl
           · unfold lowerFnz; split <;> rfl
           · unfold lowerFnz; split <;> rfl
@@ -686,6 +737,25 @@ theorem scan_rows (hE : EnvOK e L nextl0) {adj : Nat → List Nat}
             ((hd3 _).mpr (hres2.mono _ (hd1 _ hds))) hdf3
             (hres2.ma.congr (by rw [← hst3def]) (by rw [← hst3def]) (fun r hr => by rw [← hst3def] at hr; exact hr))
           obtain ⟨nwr, hnr1, hnr2, hnr3, hnr4⟩ := hres4.new
+          have hmarks : ∀ nw, post4 = nw ++ post → ∀ r, mk2 e st4 r = e.jcol ↔
+              (mk2 e st r = e.jcol ∨ r ∈ slice L (rd e.xprune s - ((d + 1 : Nat) : Int)) (rd e.xprune s) ∨
+                ∃ t ∈ nw, r ∈ adjRows e L ((t : Nat) : Int)) := by
+            intro nw hnw r
+            have hnweq : nw = nwr ++ c :: nwc := by
+              have : nw ++ post = (nwr ++ c :: nwc) ++ post := by rw [← hnw, hnr1, hnw1]; simp
+              exact append_cancel_right this
+            have hm1 : mk2 e st1 r = e.jcol ↔ (mk2 e st r = e.jcol ∨ r = rd L x) := by
+              have := mk2_mark_iff (e := e) (st := st) (row := rd L x) (r := r) hmr0 hmr1
+              unfold mk2 at this ⊢
+              rw [e_mark]; exact this
+            have hm3 : mk2 e st3 r = mk2 e st2 r := by unfold mk2; rw [← hst3def]
+            have hadjc : slice L (rd e.xprune c - ((rd e.xprune c - rd e.xlsub c).toNat : Int)) (rd e.xprune c) = adjRows e L (c : Int) := by
+              unfold adjRows; congr 1; omega
+            have e1 : rd e.xprune s - ((d + 1 : Nat) : Int) = x := by push_cast; omega
+            have e2 : rd e.xprune s - (d : Int) = x + 1 := by omega
+            rw [hres4.marks nwr hnr1 r, hm3, hres2.marks nwc hnw1 r, hm1, hadjc, hnweq, ex_split, e1, e2,
+              slice_cons L hx0 hxlt]
+            simp only [mem_cons]; exact or_shuffle
           refine ⟨1 + nc + 1 + nr, st4, post4, ?_, ?_, ?_⟩
           · intro F
             rw [show 1 + nc + 1 + nr + F = (nc + (nr + F + 1)) + 1 by omega, run_row (by exact hxlt), hstep, hrunc, hpop]
@@ -754,7 +824,8 @@ theorem scan_rows (hE : EnvOK e L nextl0) {adj : Nat → List Nat}
                   have hK : (rd e.xprune c - rd e.xlsub c).toNat + 2 ≤ stepK nextl0 := by unfold stepK; omega
                   rw [length_cons, Nat.succ_mul] at b4
                   omega
-                ma := hres4.ma }
+                ma := hres4.ma
+                marks := hmarks }
 
 end main
 
